@@ -15,7 +15,7 @@ REPO = 'git::repository'
 CFG = {'max_steps': 600000}
 
 BOUNDS = {
-    'quick': 'K1: patch per the `git diff -U0 --no-color --no-renames` grammar with <=2 files (modified / added / deleted; plain names with <=2 symbolic bytes, a name with a space (git appends TAB), a C-quoted name with octal and \\t escapes), <=2 hunks per file, hunk starts symbolic 0..999, old/new counts in {0,1,2} (`,1` omitted as git does), every body line = sign + 4 fully symbolic bytes (0x01-0x7f minus LF) + tail, optional `\\ No newline at end of file`, optional hunk heading text',
+    'quick': 'K1: patch per the `git diff -U0 --no-color --no-renames` grammar with <=2 files (modified / added / deleted; plain names with <=2 symbolic bytes, a name with a space (git appends TAB), a C-quoted name with octal and \\t escapes), <=2 hunks per file, hunk starts symbolic 0..999, old/new counts in {0,1,2} (`,1` omitted as git does), every body line = sign + 4 fully symbolic bytes (0x01-0x7f minus LF) + tail (3 / 1 symbolic bytes for added / deleted lines in multi-hunk and multi-file patches), optional `\\ No newline at end of file`, optional hunk heading text',
     'thorough': 'as quick with counts up to 3, 3 hunks per file, starts up to 99999',
 }
 OUTSIDE = 'K2-K4 (projection to lines, intersection with committed hunks, the tracker) are decided under C16 / C04 / C05; file discovery, blob snapshots, blame and the notes write are I/O and not encoded; patches with rename/copy headers (the profile pins --no-renames); binary patches'
@@ -67,6 +67,9 @@ def build_patch(h, shape):
     desc = []
     collide = []
     maxstart = 999
+    multi = len(shape['files']) > 1 or any(len(f['hunks']) > 1 for f in shape['files'])
+    nsym_add = 3 if multi else 4
+    nsym_del = 1 if multi else 4
     for fi, f in enumerate(shape['files']):
         if f['name'] == 'plain':
             nb = [h.byte('n%d_%d' % (fi, k), lo=0x21, hi=0x7e, exclude=(34, 92)) for k in range(2)]
@@ -116,13 +119,13 @@ def build_patch(h, shape):
             out.append(10)
             body = []
             for k in range(oc):
-                bl = [h.byte('d%d_%d_%d_%d' % (fi, hi, k, j), lo=1, hi=127, exclude=(10,)) for j in range(4)]
+                bl = [h.byte('d%d_%d_%d_%d' % (fi, hi, k, j), lo=1, hi=127, exclude=(10,)) for j in range(nsym_del)]
                 out += [45] + bl + list(b'x\n')
                 body.append(('-', bl))
             if shape.get('extras') and oc > 0 and nc > 0 and hi == 0:
                 out += list(b'\\ No newline at end of file\n')
             for k in range(nc):
-                bl = [h.byte('a%d_%d_%d_%d' % (fi, hi, k, j), lo=1, hi=127, exclude=(10,)) for j in range(4)]
+                bl = [h.byte('a%d_%d_%d_%d' % (fi, hi, k, j), lo=1, hi=127, exclude=(10,)) for j in range(nsym_add)]
                 out += [43] + bl + list(b'x\n')
                 body.append(('+', bl))
                 collide.append(all_of([byte_eq(bl[0], 43), byte_eq(bl[1], 43), byte_eq(bl[2], 32)]))
